@@ -194,10 +194,22 @@ Proof. intros H. unfold memb. apply existsb_exists. exists x. split; [exact H|ap
 Definition regular_table (T : list kline) : bool :=
   forallb (fun k => is_abs (k_mp k) && beq (clean (k_mp k)) (k_mp k)) T.
 
+(* an overlay mount that shows the root of the overlay: GetMountSources offers its lower
+   directory only (a bind of a directory INSIDE an overlay has another root and is resolved
+   through the device like any other bind) *)
+Definition ovl_root (k : kline) : bool := beq (k_fstype k) overlay && beq (k_root k) [slash].
+
+Lemma source_choice k : ovl_root k = false ->
+  (if beq (m_root (mount_of_k k)) [slash] then m_source (mount_of_k k) else []) = [].
+Proof.
+  unfold ovl_root, mount_of_k. cbn [m_source m_root]. destruct (beq (k_root k) [slash]); [|reflexivity].
+  rewrite andb_true_r. now intros ->.
+Qed.
+
 (* ------------------------------------------------------------------ shown => expected, bind imports *)
 Theorem shown_bind_expected T k src ty :
   regular_table T = true -> In k T -> is_bind_type ty = true ->
-  beq (k_fstype k) overlay = false ->
+  ovl_root k = false ->
   is_abs src = true -> beq (clean src) src = true -> beq src (k_mp k) = false ->
   shows_source T k src ty = true ->
   source_is_expected (devs_of T []) (mount_of_k k) src = true.
@@ -211,8 +223,9 @@ Proof.
   destruct (pathjoin2_rel (k_mp cv) src Cmp Amp Csrc Asrc Hau) as [Hpj Hrel].
   assert (Nmp : k_mp cv <> []) by (destruct (k_mp cv); discriminate).
   destruct (devs_of_in T [] cv Hin) as (d & Hfd & Hd). rewrite <- Hdev in Hfd.
-  unfold source_is_expected, mount_sources, mount_of_k. cbn [m_dev m_source m_root m_mp].
-  rewrite Hfd, Hov. apply memb_in.
+  unfold source_is_expected, mount_sources. cbv zeta. rewrite (source_choice k Hov).
+  unfold mount_of_k. cbn [m_dev m_source m_root m_mp].
+  rewrite Hfd. apply memb_in.
   set (rel := rel_suffix (k_mp cv) src) in *.
   destruct (beq (k_root cv) [slash]) eqn:Ecr.
   - (* cv shows the root of its file system *)
@@ -246,7 +259,7 @@ Definition dev_named (T : list kline) (k : kline) : bool :=
   end.
 
 Theorem shown_fs_expected T k src ty :
-  In k T -> is_bind_type ty = false -> beq (k_fstype k) overlay = false ->
+  In k T -> is_bind_type ty = false -> ovl_root k = false ->
   beq (k_root k) [slash] = true -> dev_named T k = true ->
   shows_source T k src ty = true ->
   source_is_expected (devs_of T []) (mount_of_k k) src = true.
@@ -256,8 +269,9 @@ Proof.
   unfold dev_named in Hnm. pose proof (devs_of_name T [] (k_dev k) eq_refl) as Hn.
   destruct (first_with_dev T (k_dev k)) as [k0|]; [|discriminate]. apply beq_true in Hnm.
   destruct Hn as (d & Hfd & Hname).
-  unfold source_is_expected, mount_sources, mount_of_k. cbn [m_dev m_source m_root m_mp].
-  rewrite Hfd, Hov, Hroot. apply memb_in. cbn [app]. left. congruence.
+  unfold source_is_expected, mount_sources. cbv zeta. rewrite (source_choice k Hov).
+  unfold mount_of_k. cbn [m_dev m_source m_root m_mp].
+  rewrite Hfd, Hroot. apply memb_in. cbn [app]. left. congruence.
 Qed.
 
 (* ------------------------------------------------------------------ mount(2) makes binds that are shown *)
@@ -314,7 +328,7 @@ Definition import_shown (tab : list kline) (em : emount) : bool :=
   | None => true
   | Some k =>
     shows_source tab k (em_source em) (em_fstype em)
-    && negb (beq (k_fstype k) overlay)
+    && negb (ovl_root k)
     && (if is_bind_type (em_fstype em)
         then is_abs (em_source em) && beq (clean (em_source em)) (em_source em)
              && negb (beq (em_source em) (k_mp k))
@@ -327,10 +341,11 @@ Proof.
   intros Hreg. unfold import_shown, src_agree_one.
   destruct (top_at tab (em_target em)) as [k|] eqn:Et; [|reflexivity].
   apply top_at_in in Et as [Hk _]. rewrite !andb_true_iff. intros [[Hs Hov] Hc].
-  apply negb_true_iff in Hov. rewrite Hs.
+  apply negb_true_iff in Hov. rewrite Hs. unfold model_right.
   destruct (is_bind_type (em_fstype em)) eqn:Ety.
   - rewrite !andb_true_iff in Hc. destruct Hc as [[Ha Hcl] Hne]. apply negb_true_iff in Hne.
     now rewrite (shown_bind_expected tab k _ _ Hreg Hk Ety Hov Ha Hcl Hne Hs).
   - apply andb_true_iff in Hc as [Hr Hn].
-    now rewrite (shown_fs_expected tab k _ _ Hk Ety Hov Hr Hn Hs).
+    rewrite (shown_fs_expected tab k _ _ Hk Ety Hov Hr Hn Hs).
+    unfold shows_source in Hs. rewrite Ety in Hs. apply andb_true_iff in Hs as [Hs _]. now rewrite Hs.
 Qed.
